@@ -188,13 +188,13 @@ func runC18(c *ev.Ctx) {
 	if c.Thorough() {
 		maxLen = 6
 	}
-	c.Rule(fmt.Sprintf("Sum/Prod/Min/Max/Avg: every list of length 0..%d over 7 ints {MinInt,-3,-1,0,1,2,MaxInt} and 6 dyadic floats {-2.5,-0.5,0,0.5,1.5,3}; IntSum/IntProd/IntMin/IntMax: every list of length 0..%d over the same ints interleaved with {\"s\",nil,true,1.5,a list}; each through 2 construction histories. Oracle: exact rational folds (math/big), exact equality whenever the exact result is representable, the (n-1)-ulp summation bound only when MaxInt/MinInt take part. Non-trivial = distinct list of length >= 2.", maxLen, maxLen))
+	c.Rule(fmt.Sprintf("Sum/Prod/Min/Max/Avg: every list of length 0..%d over 7 ints {MinInt,-3,-1,0,1,2,MaxInt} and 6 dyadic floats {-2.5,-0.5,0,0.5,1.5,3}; IntSum/IntProd/IntMin/IntMax: every list of length 0..%d over the same ints interleaved with {\"s\",nil,true,1.5,a list}; each through 3 construction histories (plain, spare capacity, equal elements sharing one field object). Oracle: exact rational folds (math/big), exact equality whenever the exact result is representable, the (n-1)-ulp summation bound only when MaxInt/MinInt take part. Non-trivial = distinct list of length >= 2.", maxLen, maxLen))
 	c.Assume("Avg of the empty list is unspecified by the statement and not checked", "Go's float64 arithmetic is IEEE-754 round-to-nearest-even")
 	stop := func() bool { return c.Expired() || c.TooMany() }
 	total, offs := powSum(len(c18Num), 0, maxLen)
-	done := par.Range(c.Workers, total*2, 2048, stop, func(w int, idx int64) {
-		h := int(idx%2) * 2 // histories 0 and 2
-		idx /= 2
+	done := par.Range(c.Workers, total*3, 2048, stop, func(w int, idx int64) {
+		h := []int{0, 2, 6}[idx%3] // construction histories: plain, spare capacity, shared field objects
+		idx /= 3
 		n, rest := decodeLen(idx, 0, offs)
 		dg := digits(rest, len(c18Num), n, nil)
 		vals := make([]interface{}, n)
@@ -212,14 +212,14 @@ func runC18(c *ev.Ctx) {
 			c.Violate(ev.Violation{Sig: sig, Msg: msg, Witness: map[string]interface{}{"list": seqStrings(vals)}}, func() string { _, s := c18Float(vals, h); return s })
 		}
 	})
-	if done < total*2 {
+	if done < total*3 {
 		c.Cut("float family cut by deadline")
 	}
 	na := len(c18OtherNames)
 	total2, offs2 := powSum(na, 0, maxLen)
-	done = par.Range(c.Workers, total2*2, 2048, stop, func(w int, idx int64) {
-		h := int(idx%2) * 2
-		idx /= 2
+	done = par.Range(c.Workers, total2*3, 2048, stop, func(w int, idx int64) {
+		h := []int{0, 2, 6}[idx%3]
+		idx /= 3
 		n, rest := decodeLen(idx, 0, offs2)
 		dg := digits(rest, na, n, nil)
 		c.Eval(1)
@@ -238,7 +238,17 @@ func runC18(c *ev.Ctx) {
 			c.Violate(ev.Violation{Sig: sig, Msg: msg, Witness: map[string]interface{}{"list_indices": dg2}}, func() string { _, s := c18Int(dg2, h); return s })
 		}
 	})
-	if done < total2*2 {
+	if done < total2*3 {
 		c.Cut("int family cut by deadline")
+	}
+	if !c.Expired() {
+		d := 5
+		if c.Thorough() {
+			d = 6
+		}
+		r := focusedListHistories(c, "aggregates within list histories", "aggregates", []interface{}{1, 2, 0.5}, d, nil)
+		c.Set("history_subspace", map[string]interface{}{"states": r.States, "depth": r.DepthCompleted, "transitions": c.Trans(),
+			"note": "operation alphabet of C05 plus an optional 'call every observer' operation; all nine aggregates are compared with the reference folds after every transition (memoised results must be invalidated by every mutation)"})
+		c.Eval(int(c.Trans()))
 	}
 }
